@@ -38,13 +38,13 @@ type J struct {
 	O    []member
 }
 
-func jnull() *J             { return &J{Kind: jNull} }
-func jbool(b bool) *J       { return &J{Kind: jBool, B: b} }
-func jnum(lit string) *J    { return &J{Kind: jNum, N: lit} }
-func jint(i int64) *J       { return &J{Kind: jNum, N: fmt.Sprint(i)} }
-func jstr(s string) *J      { return &J{Kind: jStr, S: s} }
-func jarr(a ...*J) *J       { return &J{Kind: jArr, A: a} }
-func jobj(m ...member) *J   { return &J{Kind: jObj, O: m} }
+func jnull() *J                { return &J{Kind: jNull} }
+func jbool(b bool) *J          { return &J{Kind: jBool, B: b} }
+func jnum(lit string) *J       { return &J{Kind: jNum, N: lit} }
+func jint(i int64) *J          { return &J{Kind: jNum, N: fmt.Sprint(i)} }
+func jstr(s string) *J         { return &J{Kind: jStr, S: s} }
+func jarr(a ...*J) *J          { return &J{Kind: jArr, A: a} }
+func jobj(m ...member) *J      { return &J{Kind: jObj, O: m} }
 func kv(k string, v *J) member { return member{k, v} }
 
 func parseJ(data []byte) (*J, error) {
